@@ -30,7 +30,7 @@ BOUNDS = {'quick': 'shapes (3,), (2,3), Stokes IQU(2,), pytree; every closed-for
                    'concrete SPD 3x3 and positive-diagonal products for the lazy inverse', 'thorough': 'same + arity-3 blocks and nested inverses'}
 STUBS = ['lineax.linear_solve -> contract stub A.mv(z) == b (functional). Convergence of CG to the configured tolerance is NOT decided.']
 ASSUMPTIONS = ['real arithmetic', 'scalars != 0 and (for two-sided inverse identities) diagonal entries != 0', 'lazy inverse: the solver returns a solution',
-               'as_matrix() of an inverse (jnp.linalg.inv: LU primitives, not encodable) is not decided by the solver: it is compared concretely with the matrix inverse for 29 operators (rotations and their transposes on QU/IQU/IQUV at three angle pairs, HWP, SPD and non-symmetric dense, diagonal, scalar, block diagonal, move-axis)']
+               'as_matrix() of an inverse (jnp.linalg.inv: LU primitives, not encodable) is not decided by the solver: it is compared concretely with the matrix inverse for 34 operators (rotations and their transposes on QU/IQU/IQUV at three angle pairs, HWP, SPD and non-symmetric dense, diagonal, scalar (float, integer-typed, Python int), block diagonal, move-axis), together with the round trips A.I(A x) = x = A(A.I x) on a concrete vector']
 RULE = 'case = (family, operator expression, identity); non-trivial = has symbolic parameters or uses the stub; distinct keys'
 BUDGET = {'quick': 300, 'thorough': 1200}
 
@@ -202,6 +202,13 @@ def _dense_inverse_ops():
     out['diagonal'] = lambda: DiagonalOperator(jnp.array([2., -0.5, 4.]), in_structure=S(3))
     out['diagonal on a matrix'] = lambda: DiagonalOperator(jnp.array([2., -0.5]), axis_destination=0, in_structure=S(2, 3))
     out['scalar'] = lambda: HomothetyOperator(jnp.array(-2.5), S(3))
+    # scalar operators whose value is integer-typed (what `2 * A` builds from a Python int), a Python int, a negative int
+    from furax._base.core import IdentityOperator
+    out['scalar int array'] = lambda: HomothetyOperator(jnp.asarray(3), S(3))
+    out['scalar python int'] = lambda: HomothetyOperator(2, S(3))
+    out['2 * identity, reduced'] = lambda: (2 * IdentityOperator(S(3))).reduce()
+    out['-4 * identity on a matrix, reduced'] = lambda: (-4 * IdentityOperator(S(2, 3))).reduce()
+    out['block diagonal with an integer scalar block'] = lambda: BlockDiagonalOperator({'a': (3 * IdentityOperator(S(2))).reduce(), 'b': DiagonalOperator(jnp.array([2., 4.]), in_structure=S(2))})
     out['block diagonal'] = lambda: BlockDiagonalOperator([Dense(spd, S(3), 'ij,j->i'), DiagonalOperator(jnp.array([2., 4.]), in_structure=S(2))])
     out['move axis'] = lambda: MoveAxisOperator((0, 1), (2, 0), in_structure=S(2, 3, 2))
     return out
@@ -224,6 +231,15 @@ def _dense_inverse(name):
             return violation(f'{name}: as_matrix() of the inverse times as_matrix() of the operator differs from the identity by {err:.3e}', signature=f'c06-dense-inverse:{name}', kind='dense-inverse')
         if op.I.I is not op and not np.allclose(np.asarray(AbstractLinearOperator.as_matrix(op.I.I)), M, atol=1e-10):
             return violation(f'{name}: A.I.I does not denote A', signature=f'c06-dense-II:{name}', kind='dense-inverse')
+        # and through mv: A.I(A x) = x = A(A.I x) on a concrete vector
+        x = jax.tree.map(lambda l: jnp.arange(1., 1 + int(np.prod(l.shape)), dtype=l.dtype).reshape(l.shape) / 3, op.in_structure())
+        tol_ = 1e-5 if name.startswith('InverseOperator') else 1e-9
+        from furax._base.core import InverseOperator as _Lazy
+        lazy_ok = not isinstance(op.I, _Lazy) or 'spd' in name      # the iterative inverse is only claimed for SPD operators
+        for lab, got in ((('A.I(A x)', op.I.mv(op.mv(x))), ('A(A.I x)', op.mv(op.I.mv(x)))) if lazy_ok else ()):
+            close, msg = trees_close(got, x, rtol=tol_, atol=tol_)
+            if not close:
+                return violation(f'{name}: {lab} != x: {msg}', signature=f'c06-dense-roundtrip:{name}', kind='dense-inverse')
     return ok(obligations=0, concrete_checks=1, nontrivial=True, sample=dict(case=f'dense inverse: {name}', max_error=err))
 
 
